@@ -446,6 +446,9 @@ def apply_recipe(body, recipe, fired):
         must = s[2] if len(s) > 2 else 1
         body, n = sub_code(body, pat, rep)
         note('sub:' + pat, n, must)
+    if recipe.get('methods'):
+        body, n = rewrite_methods(body, recipe['methods'])
+        note('R7-methods', n, False)
     if recipe.get('refs'):
         body, n = rewrite_tokens(body, recipe['refs'], '(*%s)')
         note('R1-refs:' + ','.join(recipe['refs']), n, True)
@@ -453,6 +456,183 @@ def apply_recipe(body, recipe, fired):
         body, n = rewrite_tokens(body, recipe['self'], 'self->%s')
         note('R6-self', n, False)
     return body
+
+
+
+# --------------------------------------------------------------------------------------
+# R7: method-call syntax  RECV->name(args) / RECV.name(args)  ->  M_name_<arity>(RECV | &(RECV), args)
+
+def _receiver_start(text, mask, op_pos):
+    """text[op_pos:] starts with '->' or '.'; return the start offset of the postfix expression that is the receiver."""
+    pos = op_pos
+    while True:
+        i = pos - 1
+        while i >= 0 and text[i].isspace():
+            i -= 1
+        if i < 0:
+            return pos
+        if text[i] == ')':
+            depth = 0
+            j = i
+            while j >= 0:
+                if mask[j]:
+                    if text[j] == ')':
+                        depth += 1
+                    elif text[j] == '(':
+                        depth -= 1
+                        if depth == 0:
+                            break
+                j -= 1
+            if j < 0:
+                raise ExtractError('unbalanced receiver near offset %d' % op_pos)
+            k = j - 1
+            while k >= 0 and text[k].isspace():
+                k -= 1
+            if k >= 0 and (text[k].isalnum() or text[k] == '_'):
+                while k >= 0 and (text[k].isalnum() or text[k] == '_'):
+                    k -= 1
+                start = k + 1
+                word = text[start:j].strip()
+                if word in ('if', 'while', 'for', 'switch', 'return', 'sizeof'):
+                    start = j
+            else:
+                start = j
+        elif text[i] == ']':
+            depth = 0
+            j = i
+            while j >= 0:
+                if mask[j]:
+                    if text[j] == ']':
+                        depth += 1
+                    elif text[j] == '[':
+                        depth -= 1
+                        if depth == 0:
+                            break
+                j -= 1
+            # the indexed expression continues to the left
+            pos = j
+            continue
+        elif text[i].isalnum() or text[i] == '_':
+            k = i
+            while k >= 0 and (text[k].isalnum() or text[k] == '_'):
+                k -= 1
+            start = k + 1
+        else:
+            return pos
+        # is the piece preceded by another selection operator?
+        m = start - 1
+        while m >= 0 and text[m].isspace():
+            m -= 1
+        if m >= 1 and text[m - 1:m + 1] == '->':
+            pos = m - 1
+            continue
+        if m >= 1 and text[m - 1:m + 1] == '::':
+            pos = m - 1
+            continue
+        if m >= 0 and text[m] == '.' and not (m >= 1 and text[m - 1].isdigit()):
+            pos = m
+            continue
+        return start
+
+
+def rewrite_methods(text, names, prefix='M_'):
+    if not names:
+        return text, 0
+    pat = re.compile(r'(->|\.)\s*(' + '|'.join(re.escape(n) for n in sorted(names, key=len, reverse=True)) + r')\s*\(')
+    count = 0
+    guard = 0
+    while True:
+        guard += 1
+        if guard > 5000:
+            raise ExtractError('method rewriting does not terminate')
+        mask = code_mask(text)
+        m = None
+        for mm in pat.finditer(text):
+            if mask[mm.start()]:
+                m = mm
+                break
+        if not m:
+            return text, count
+        op = m.group(1)
+        rs = _receiver_start(text, mask, m.start())
+        recv = text[rs:m.start()].strip()
+        if not recv:
+            raise ExtractError('method call without receiver near %r' % text[m.start():m.start() + 30])
+        lp = m.end() - 1
+        rp = match_close(text, mask, lp, '(', ')')
+        args = text[lp + 1:rp].strip()
+        depth = 0
+        arity = 0 if not args else 1
+        for idx, ch in enumerate(args):
+            if ch in '([{':
+                depth += 1
+            elif ch in ')]}':
+                depth -= 1
+            elif ch == ',' and depth == 0:
+                arity += 1
+        r = recv if op == '->' else '&(' + recv + ')'
+        new = '%s%s_%d(%s%s)' % (prefix, m.group(2), arity, r, (', ' + args) if args else '')
+        text = text[:rs] + new + text[rp + 1:]
+        count += 1
+
+
+def accessors(repo, recipe):
+    """kind=accessors: extract the inline one-liner methods `names` of class `cls` from a header as C functions
+    PREFIX_name_<arity>(THIS *self, params).  Member names in `fields` become self->name; calls to sibling methods
+    listed in `names` without receiver become PREFIX_name_<n>(self, ..)."""
+    path = os.path.join(repo, recipe['file'])
+    text = open(path, encoding='utf-8', errors='replace').read()
+    mask = code_mask(text)
+    lo, hi = _search_region(text, {'scope': recipe['scope'], 'file': recipe['file']})
+    region = text[lo:hi]
+    rmask = code_mask(region)
+    prefix = recipe['prefix']
+    this = recipe.get('this', prefix)
+    out = []
+    fired = []
+    protos = []
+    seen_names = set()
+    defines = []
+    for name in recipe['names']:
+        pat = re.compile(r'(?:^|[;{}:])\s*((?:[\w:<>]+[\s\*&]+)+?)' + re.escape(name) + r'\s*\(([^()]*)\)\s*(const)?\s*(?:throw\s*\(\s*\))?\s*\{', re.M)
+        found = 0
+        for m in pat.finditer(region):
+            if not rmask[m.start(2) if m.group(2) else m.end() - 1]:
+                continue
+            b = m.end() - 1
+            e = match_close(region, rmask, b, '{', '}')
+            body = strip_comments(region[b:e + 1])
+            ret = ' '.join(m.group(1).replace('inline', '').replace('static', '').replace('virtual', '').split())
+            params = [x.strip() for x in m.group(2).split(',')] if m.group(2).strip() else []
+            params = [re.sub(r'\s*=\s*[^,]+$', '', x) for x in params]
+            arity = len(params)
+            cname = '%s_%s_%d' % (prefix, name, arity)
+            if cname in seen_names:          # const / non-const overload pair: one C function
+                continue
+            seen_names.add(cname)
+            # receiver-less calls to sibling accessors
+            for other in recipe['names']:
+                def sib(mm2, other=other):
+                    a = mm2.group(1).strip()
+                    n = 0 if not a else a.count(',') + 1
+                    return '%s_%s_%d(self%s)' % (prefix, other, n, (', ' + a) if a else '')
+                body, _ = sub_code(body, r'(?<![\w.>:])' + re.escape(other) + r'\s*\(([^()]*)\)', sib)
+            body, _ = rewrite_tokens(body, recipe.get('fields', []), 'self->%s')
+            for sb in recipe.get('subs') or []:
+                body, _ = sub_code(body, sb[0], sb[1])
+            selfdecl = ('const %s *self' % this) if m.group(3) else ('%s *self' % this)
+            sig = 'static %s %s(%s%s)' % (ret, cname, selfdecl, (', ' + ', '.join(params)) if params else '')
+            protos.append(sig + ';')
+            out.append(sig + ' ' + body)
+            if recipe.get('dispatch', True) and name not in (recipe.get('generic') or []):
+                defines.append('#define M_%s_%d %s' % (name, arity, cname))
+            found += 1
+        fired.append({'rule': 'accessor:' + name, 'count': found})
+        if not found and not recipe.get('optional'):
+            raise ExtractError('accessor %s::%s not found as an inline method in %s' % (prefix, name, recipe['file']))
+    info = {'file': recipe['file'], 'line': text.count('\n', 0, lo) + 1, 'kind': 'accessors', 'what': '%s accessors: %s' % (prefix, ', '.join(recipe['names'])),
+            'sha256': hashlib.sha256(region.encode()).hexdigest(), 'rules': fired, 'source_header': ''}
+    return '\n'.join(protos) + '\n' + '\n'.join(out) + '\n' + '\n'.join(defines) + '\n', info
 
 
 def op_effects(repo, recipe):
@@ -499,6 +679,8 @@ def op_effects(repo, recipe):
 def extract(repo, recipe):
     if recipe.get('kind') == 'opeffects':
         return op_effects(repo, recipe)
+    if recipe.get('kind') == 'accessors':
+        return accessors(repo, recipe)
     path = os.path.join(repo, recipe['file'])
     try:
         text = open(path, encoding='utf-8', errors='replace').read()
